@@ -3,6 +3,18 @@
 import json, subprocess
 
 CLAIMS = {
+ "C01": ("Per-step clauses: a collection add/remove is accepted only within bounds on a collection, yields exactly the old collection with the value inserted/removed in a fresh backing array (the old snapshot is untouched), bumps the version and stamps idx/value on the event; a rejected event changes nothing; snapshot and version are read as a pair; a get response never touches an already loaded resource and starts a newly loaded one at version 0; a change event that fails to decode yields no values. Not decided: model change merge (handleEventChange), composition over histories and schedules, legacy encodings.",
+         "5/C01"),
+ "C02": ("Fragment: add/remove indexes are validated against the cached collection before any subscriber sees the event, kind mismatches (add/remove on a model) are rejected; Unsend takes exactly one sent count from every sent referenced resource. Not decided: dangling-reference freedom (the collector tryDelete and the populate routines are trusted, see DESIGN 5/C02).",
+         "5/C02"),
+ "C13": ("handleQueryEvent: without cached queries, with a bad payload or an empty subject nothing happens and nothing is locked; otherwise the lock capacity equals the number of cached queries and exactly that many unlock promises are made (one query request to the event's subject per loaded query, one immediate unlock per query still loading) for every map order; lockEvents/enqueueUnlock arithmetic; a get response never touches an already loaded (normalised) resource. Not decided: processQueue's lock countdown, the query response closure.",
+         "5/C13"),
+ "C16": ("Both encoders keep the expansion path a stack: rendering a resource leaves the path exactly as found on every successful return (failed and re-entered resources are not pushed), for all graphs and value lists; EncodePOST passes the result verbatim or nothing. Not decided: equality of the body with the recursive expansion, JSON well-formedness.",
+         "5/C16"),
+ "C18": ("Adapter steps: SendRequest completes the callback with an error or registers it, exactly one of the two, and whatever it publishes or subscribes fits a control line (guards cover separators, size digits and the sid); onTimeout leaves a non-pending request alone and otherwise removes the entry before exactly one system.timeout callback; listener removes the pending entry before the one callback of the first non-pre-response message (no-responders -> system.notFound), pre-responses invoke nothing; Unsubscribe removes the entry; onClose invokes the handler. Assumed: nats.go/timer behaviour, c.mu serialisation. Not decided: never-twice across the real timer and reader goroutines, event order.",
+         "5/C18"),
+ "C20": ("newWSConn creates and registers nothing while the service is not running or is stopping; Stop does nothing unless running and not stopping, otherwise marks stopping, stops sockets then HTTP then the messaging client (call order asserted), reports the cause on the stop channel exactly once and leaves the service restartable; stopWSHandler asks every registered connection to close; handleClosedMQ stops with the cause; temporaryConn answers 503 without service traffic when no connection can be created. Not decided: timeouts, goroutine exit, process exit.",
+         "5/C20"),
  "C03": ("Hold-queue clauses: a held event is processed only while no hold reason is set (unqueueEvents, for all queue contents); the connection step of Subscription.Event drops events before the resource is handed over, appends at the tail of the hold queue while any reason is set (prefix unchanged) and processes at once otherwise; the cache work queue (EventSubscription.Enqueue) appends at the tail; a reset re-fetch answer always ends the resetting state before it is processed. Not decided: end-to-end order across goroutines, processEvent itself (trusted).",
          "5/C03"),
  "C04": ("(*Access).CanGet grants exactly when the verdict has no error and get==true; the access layer hands a well-formed verdict to every waiter (Cache.Access, wsConn.Access, loadAccess) and CanGet's callback receives nil exactly for a grant; in get/subscribe/resource-response handlers resource data is released only inside closures whose creation is dominated by err==nil of that callback (closure preconditions); a verdict is cached only if it is a result or a plain denial; reaccess, token change and reset drop the cached verdict unconditionally (handleReaccess, setToken). Not decided: validity of a grant between two connection-worker steps; GetRPCResources/populate (trusted).",
